@@ -15,7 +15,8 @@ the long-term signer and stores that signature under SIG and the same bytes unde
 response context, the message it encodes and SIG/SREP; Responder::new certifies the online key and version it stores;
 (2) the Merkle leaf is the whole datagram buf[..num_bytes] for RfcDraft13 and the NONC value for Google;
 (3) the byte width of every tree hash (hash() result, padding node, PATH chunk width and modulus) equals the spec width
-(64 / 32); (4) leaf and node tweak constants equal 0x00 / 0x01 and are the first hashed element, and MerkleTree::hash digests every input slice whole and in order under self.algorithm;
+(64 / 32); (6) the reply is in the protocol of the request: the request-classification rules of C12 hold;
+(4) leaf and node tweak constants equal 0x00 / 0x01 and are the first hashed element, and MerkleTree::hash digests every input slice whole and in order under self.algorithm;
 (5) make_response adds exactly SIG, NONC, PATH, SREP, CERT, INDX from the batch's SREP message, the request's nonce, get_paths(idx),
 this responder's certificate and the same idx, all taken from one enumerate().next() element that also supplies the
 destination address; (6) Google responses use encode(), RfcDraft13 encode_framed();
@@ -404,3 +405,16 @@ def run(ctx):
     callers = sorted({c[0] for c in P.callers(NDI)})
     ctx.check("grease-gating", "new_deliberately_invalid/callers", all(c.startswith("roughenough::grease::") for c in callers),
               "new_deliberately_invalid is only called from grease (%s)" % callers, "new_deliberately_invalid is called from %s" % callers)
+
+    # "for any mix of classic and IETF requests": the reply must be in the protocol the request was made in.  Which protocol a datagram is taken
+    # for is decided by the request classification (framing, version negotiation): the structure rules of C12 are obligations of C02 as well - a
+    # framed request that can negotiate the classic version is answered with an unframed Google-format reply that its sender cannot verify.
+    import importlib
+    from framework import Ctx
+    c12 = importlib.import_module("rules.C12")
+    sub12 = Ctx("C12", P, ctx.repo, "quick", ctx.feature)
+    c12.run(sub12)
+    bad12 = [i for i in sub12.instances if not i["ok"]]
+    ctx.check("protocol-match", "reply-protocol-follows-request-classification(C12)", not bad12,
+              "framed requests negotiate draft-13 only and are answered by the IETF responder (C12 structure rules hold: %d instances)" % len(sub12.instances),
+              "a request can be answered in the other protocol's format: " + (bad12[0]["detail"] if bad12 else ""), bad12[0].get("loc") if bad12 else None)
